@@ -4369,3 +4369,14 @@ def int_popcount(m, mt, args, tys, dty):
     if op == 'count_zeros':
         return nbits - ones
     return ones == 1
+
+
+
+@summary(r'core::slice::<impl \[.*\]>::(copy_from_slice|clone_from_slice)')
+def slice_copy_from_slice(m, mt, args, tys, dty):
+    dst, src = as_slice(args[0]), as_slice(args[1])
+    if len(dst) != len(src):
+        raise Panic('SliceLen', 'copy_from_slice: source and destination lengths differ')
+    for i in range(len(src)):
+        dst.base[dst.lo + i] = copy_val(src.get(i))
+    return Agg('tuple', '()', [])
